@@ -18,7 +18,8 @@ Record verdict := {
   v_nondraw_clean : bool;   (* non-drawing ops emit no pixel data / RAMWR *)
   v_sleep_match : bool;     (* is_sleeping() = the controller's sleep state, after init and after every op *)
   v_sleep_delay : bool;     (* every sleep-in / sleep-out is followed by >= 120 ms of delay inside the same call *)
-  v_scroll : bool           (* scroll set-up / offset commands exactly as specified *)
+  v_scroll : bool;          (* scroll set-up / offset commands exactly as specified *)
+  v_sleep_spacing : bool    (* the controller never saw two sleep-in/out commands < 120 ms apart *)
 }.
 
 Definition panel_of (o : opts) : panel := {| p_w := o_w o; p_h := o_h o; p_ox := o_ox o; p_oy := o_oy o |}.
@@ -113,7 +114,7 @@ Definition walk_op (enc : Z -> list Z) (p : panel) (opt : opts) (s : wstate) (x 
 Definition bad_verdict : verdict :=
   {| v_results_ok := false; v_framing := false; v_no_anomaly := false; v_writes := false; v_confined := false;
      v_obs := false; v_madctl := false; v_one_window := false; v_nondraw_clean := false;
-     v_sleep_match := false; v_sleep_delay := false; v_scroll := false |}.
+     v_sleep_match := false; v_sleep_delay := false; v_scroll := false; v_sleep_spacing := false |}.
 
 Definition judge (pc : pcase) (impl : pout) : verdict :=
   let '(r0, ev0, ob0, outs) := impl in
@@ -139,7 +140,8 @@ Definition judge (pc : pcase) (impl : pout) : verdict :=
          v_writes := list_eqb wr_eqb ws (rev (ws_exp_rev s));
          v_confined := forallb (wr_inside p) ws;
          v_obs := ws_obs s; v_madctl := ws_mad s; v_one_window := ws_onew s; v_nondraw_clean := ws_nd s;
-         v_sleep_match := ws_slm s; v_sleep_delay := ws_sld s; v_scroll := ws_scr s |}
+         v_sleep_match := ws_slm s; v_sleep_delay := ws_sld s; v_scroll := ws_scr s;
+         v_sleep_spacing := negb (existsb (fun a => match a with SleepSpacing => true | _ => false end) (k_flags (ws_ctl s))) |}
   end.
 
 Definition all_good (v : verdict) : bool :=
